@@ -119,25 +119,58 @@ Fixpoint scan (fuel : nat) (rest : list hent) (size c : N) (found : bool) (consu
     end
   end.
 
+(* which of the proposed repairs of do_readdir the source tree contains (read from the source by
+   props/c16.py on every run, validated by the tie):
+     rx_refill  : a batch holding only "." / ".." records is re-read (fixes/C16-readdir-dots-only-batch.patch)
+     rx_scanlen : the fallback scan uses a buffer of max(size, 4096) bytes (fixes/C16-fallback-scan-small-buffer.patch) *)
+Record rfixes := mk_rfixes { rx_refill : bool; rx_scanlen : bool }.
+Definition no_rfixes : rfixes := mk_rfixes false false.
+Definition all_rfixes : rfixes := mk_rfixes true true.
+
+Definition only_dots (b : list hent) : bool :=
+  match b with [] => false | _ :: _ => forallb is_dot b end.
+
+(* `while Self::only_dot_entries(&buf) { getdents64 again }`; [rest]: the directory after the fd position *)
+Fixpoint refill (fuel : nat) (rest : list hent) (size : N) (b : list hent) (pos : nat)
+  : res (list hent) * nat :=
+  if only_dots b then
+    match fuel with
+    | O => (RErr EFUEL, pos)
+    | S f => match getdents_l rest size with
+             | RErr e => (RErr e, pos)
+             | ROk b' => refill f (skipn (length b') rest) size b' (pos + length b')%nat
+             end
+    end
+  else (ROk b, pos).
+
 (* per open directory handle: the persistent fd position and HandleMap.cookies[handle] *)
 Record hstate := mk_hstate { hs_open : bool; hs_pos : nat; hs_cache : option N }.
 
 Definition after_batch (pos : nat) (b : list hent) : hstate :=
   mk_hstate true (pos + length b)%nat (last_cookie b).
 
+(* what both paths do with the batch they fetched: optional re-read loop, then cache_cookie *)
+Definition post (X : rfixes) (use_cache : bool) (d : list hent) (size : N) (b : list hent) (pos : nat)
+  : res (list hent) * hstate :=
+  let r := if rx_refill X then refill (S (length (skipn pos d))) (skipn pos d) size b pos else (ROk b, pos) in
+  match r with
+  | (RErr e, n) => (RErr e, mk_hstate true n None)
+  | (ROk b2, n) => (ROk b2, mk_hstate true n (if use_cache then last_cookie b2 else None))
+  end.
+
 (* lseek-or-hit, getdents64, cache_cookie.  [use_cache] = !no_opendir *)
-Definition fetch (H : host) (use_cache : bool) (d : list hent) (hs : hstate) (size offset : N)
+Definition fetch (H : host) (X : rfixes) (use_cache : bool) (d : list hent) (hs : hstate) (size offset : N)
   : res (list hent) * hstate :=
   let hit := use_cache && match hs_cache hs with Some c => c =? offset | None => false end in
   let gd (pos : nat) :=
     match getdents_l (skipn pos d) size with
     | RErr e => (RErr e, mk_hstate true pos None)
-    | ROk b => (ROk b, if use_cache then after_batch pos b else mk_hstate true (pos + length b)%nat None)
+    | ROk b => post X use_cache d size b (pos + length b)%nat
     end in
   let fallback (_ : unit) :=     (* a thunk: vm_compute is call-by-value *)
-    match scan (S (length d)) d size offset false 0%nat with
+    match scan (S (length d)) d (if rx_scanlen X then N.max size 4096 else size) offset false 0%nat with
     | (RErr e, n) => (RErr e, mk_hstate true n None)
-    | (ROk b, n) => (ROk b, mk_hstate true n (if use_cache then last_cookie b else None))
+    | (ROk b, n) => post X use_cache d size b n
     end in
   if hit then gd (hs_pos hs)
   else if I64_MAX <? offset then fallback tt
@@ -190,7 +223,7 @@ Fixpoint deliver (H : host) (wrap : N -> res N) (plus : bool) (size : N) (batch 
 (* ---------------------------------------------------------------- one READDIR / READDIRPLUS request *)
 Record req := mk_req { r_handle : N; r_size : N; r_offset : N; r_plus : bool }.
 Record state := mk_state { st_h : N -> hstate; st_refs : N -> N }.
-Record cfg := mk_cfg { c_noopendir : bool; c_wrap : N -> res N }.
+Record cfg := mk_cfg { c_noopendir : bool; c_wrap : N -> res N; c_rx : rfixes }.
 
 Definition upd_h (f : N -> hstate) (h : N) (v : hstate) : N -> hstate :=
   fun j => if j =? h then v else f j.
@@ -202,7 +235,7 @@ Definition step (H : host) (C : cfg) (d : list hent) (st : state) (r : req)
   if r_size r =? 0 then (ROk [], st)
   else if c_noopendir C then
     (* get_dirdata opens a fresh fd for this call; the cookie cache is not consulted *)
-    match fetch H false d fresh_fd (r_size r) (r_offset r) with
+    match fetch H (c_rx C) false d fresh_fd (r_size r) (r_offset r) with
     | (RErr e, _) => (RErr e, st)
     | (ROk b, _) =>
       let '(rep, refs') := deliver H (c_wrap C) (r_plus r) (r_size r) b true 0 (st_refs st) in
@@ -212,7 +245,7 @@ Definition step (H : host) (C : cfg) (d : list hent) (st : state) (r : req)
     let hs := st_h st (r_handle r) in
     if negb (hs_open hs) then (RErr EBADF, st)
     else
-      match fetch H true d hs (r_size r) (r_offset r) with
+      match fetch H (c_rx C) true d hs (r_size r) (r_offset r) with
       | (RErr e, hs') => (RErr e, mk_state (upd_h (st_h st) (r_handle r) hs') (st_refs st))
       | (ROk b, hs') =>
         let '(rep, refs') := deliver H (c_wrap C) (r_plus r) (r_size r) b true 0 (st_refs st) in
@@ -301,9 +334,9 @@ Fixpoint all2 {A B : Type} (f : A -> B -> bool) (a : list A) (b : list B) : bool
   | _, _ => false
   end.
 
-Definition hist_check (full noopendir : bool) (d : list hent) (hs : list N) (cases : list (req * obs)) : bool :=
+Definition hist_check (X : rfixes) (full noopendir : bool) (d : list hent) (hs : list N) (cases : list (req * obs)) : bool :=
   all2 obs_eqb
-       (fst (run (tie_host full d) (mk_cfg noopendir (fun i => ROk i)) d (init_state hs) (map fst cases)))
+       (fst (run (tie_host full d) (mk_cfg noopendir (fun i => ROk i) X) d (init_state hs) (map fst cases)))
        (map snd cases).
 
 Inductive pobs : Type :=
